@@ -3,11 +3,11 @@ package main
 // Per-instruction translation.
 
 import (
-	"sync"
 	"fmt"
 	"go/token"
 	"go/types"
 	"strings"
+	"sync"
 
 	"golang.org/x/tools/go/ssa"
 )
@@ -177,7 +177,7 @@ func (fr *frame) execBlock(b *ssa.BasicBlock, st *bstate) {
 				f.oblige(st, fmt.Sprintf("%s#send-on-open:%s", fnShortName(fr.fn), valueLabel(x.Chan)), "safety", f.sweepTags, not(closed), "send on channel that may be closed", posStr(f.e.fset, x.Pos()))
 			}
 			fr.noteSend(x, st)
-			fr.beforeSendAsserts(x, st, "true")
+			fr.beforeSendAsserts(x, st, "true", x.Chan, x.X)
 			f.exact["Send"]++
 		case *ssa.Store:
 			addr := fr.val(x.Addr)
@@ -340,9 +340,47 @@ func (fr *frame) alloc(x *ssa.Alloc, st *bstate) {
 	f.exact["Alloc"]++
 }
 
+// sweep kind "nilresult": the pointer result of a call that also returns an error is dereferenced only where
+// the error is known to be nil (or the pointer known to be non-nil): `u, err := url.Parse(s)` followed by
+// `u.Host` on a path where err may be non-nil is a nil dereference for the inputs the callee rejects.
+func (fr *frame) checkNilResult(ptr ssa.Value, st *bstate, pos token.Pos) {
+	f := fr.f
+	if !f.sweep["nilresult"] || f.dry || fr.recovers() {
+		return
+	}
+	ex, ok := ptr.(*ssa.Extract)
+	if !ok {
+		return
+	}
+	call, ok := ex.Tuple.(*ssa.Call)
+	if !ok {
+		return
+	}
+	tup, ok := call.Type().(*types.Tuple)
+	if !ok || tup.Len() < 2 {
+		return
+	}
+	last := tup.Len() - 1
+	if ex.Index == last || tup.At(last).Type().String() != "error" {
+		return
+	}
+	tv, ok := fr.valOK(call)
+	if !ok || tv.K != KTuple || len(tv.Fs) <= last {
+		return
+	}
+	pv, ok := fr.valOK(ptr)
+	if !ok || pv.K != KRef || tv.Fs[last].K != KAny {
+		return
+	}
+	goal := or(eq(tv.Fs[last].Tm, "any_nil"), not(eq(pv.Tm, "0")))
+	f.oblige(st, fmt.Sprintf("%s#result-used-only-without-error:%s", fnShortName(fr.fn), valueLabel(ptr)), "safety", f.sweepTags, goal,
+		"the pointer result of a call that may have failed is dereferenced only where its error is nil", posStr(f.e.fset, pos))
+}
+
 func (fr *frame) fieldAddr(x *ssa.FieldAddr, st *bstate) {
 	f := fr.f
 	base := fr.val(x.X)
+	fr.checkNilResult(x.X, st, x.Pos())
 	T := x.X.Type().Underlying().(*types.Pointer).Elem()
 	stt := T.Underlying().(*types.Struct)
 	ft := stt.Field(x.Field).Type()
@@ -716,7 +754,7 @@ func (fr *frame) selectInstr(x *ssa.Select, st *bstate) {
 	}
 	for i, s := range x.States {
 		if s.Dir == types.SendOnly {
-			fr.beforeSendAsserts(x, st, eq(idx, intLit(int64(i))))
+			fr.beforeSendAsserts(x, st, eq(idx, intLit(int64(i))), s.Chan, s.Send)
 		}
 	}
 	// a send case that is taken on a closed channel panics (also with a default case)
